@@ -141,7 +141,7 @@ def plan_run(i):
         if rng.chance(1, 12):
             # not even a regular file: what the path names is a directory, a FIFO, a dangling symlink, or a
             # symlink to the stored bytes
-            p.kind = rng.choice(["dir", "fifo", "dangling", "symlink"])
+            p.kind = rng.choice(["dir", "fifo", "dangling", "symlink", "lying_size", "lying_size"])
             p.faults = [dict(d, storage_object=p.kind)]
         return p
     # host-magic bases are over-sampled: they are the only ones that reach the fast path
@@ -278,6 +278,11 @@ def exec_image(image, name, fast_load, get_code, count_steps, tag="r", kind="fil
         with open(os.path.join(d, "target.bin"), "wb") as f:
             f.write(image)
         os.symlink(os.path.join(d, "target.bin"), path)
+    elif kind == "lying_size":
+        # a file whose stat size (4096) is not what a read delivers (2-6 bytes): kernel pseudo-files do that,
+        # and so does a file truncated between the size check and the read
+        cands = [c for c in LYING_FILES if os.path.exists(c)]
+        os.symlink(cands[len(image) % len(cands)] if cands else os.path.join(d, "no-such-target"), path)
     else:
         with open(path, "wb") as f:
             f.write(image)
@@ -391,6 +396,8 @@ def _compact(plan, rec):
     }
 
 
+LYING_FILES = ["/sys/class/net/lo/addr_len", "/sys/class/net/lo/mtu", "/sys/devices/system/cpu/online",
+               "/sys/class/net/lo/ifindex"]
 CPU_BUDGET_S = 12   # CPU seconds one load of a <= 64 KiB file may burn (typical: milliseconds)
 BATCH_CPU_GUARD_S = 4
 WALL_GUARD_S = 3.0
